@@ -14,6 +14,10 @@ def classify(case, rec):
     preds = set(case["tags"]) & (set(gens7.KNOWN_BAD_TAGS) | {"merger_swizzle_before_multi_rank_lookup"})
     if rec is not None and gens.colliding_rank_names(rec["yaml"]):
         preds.add("colliding_rank_names")
+    if "metrics_partitioned_index_math" in case["tags"]:
+        # a partitioned convolution: since fix b32f93e these programs run in metrics mode, and with a halo on the following rank they
+        # show C04's finding (interval of a non-last partition not clipped: elements beyond the extent) exactly as the plain programs do
+        preds.add("halo_partition")
     return preds
 
 
@@ -46,6 +50,7 @@ def run(ctx):
                               dict(gen="g7conv", count=20 * k, modes=["metrics"], nexec=2, reference=True),
                               dict(gen="g7lf", count=15 * k, modes=["metrics"], nexec=2, reference=True), dict(gen="g7lfa", count=20 * k, modes=["metrics"], nexec=2, reference=True),
                               dict(gen="g7mrg", count=12 * k, modes=["metrics"], nexec=2, reference=True)])
+    ctx.findings = ctx.findings + [f for f in common.load_findings("C04") if f["id"] == "C04-interval-not-clipped"]
     keep = []
     for r in recs:
         tags = set(r["case"]["tags"]) if r.get("case") else set()
